@@ -9,7 +9,7 @@ SPEC = {
                     "timeout": {"quick": 600, "thorough": 2400},
                     # thorough tier: the same generated programs (a small slice) under Miri with Tree Borrows --
                     # supporting evidence for the memory-safety half, never a substitute for a theorem
-                    "miri": {"args": ["--scale", "1", "--sweep", "4"], "timeout": 2400}}],
+                    "miri": {"args": ["--scale", "1", "--sweep", "40", "--stride", "6"], "timeout": 1500}}],
     # the model has the arithmetic of the debug build (overflow checks on); a release build lets
     # `advance(n)` wrap for n near usize::MAX (the caller of that unsafe fn breaks its contract)
     "release": False,
@@ -30,8 +30,10 @@ SPEC = {
         "compiled program; the theorems prove the index arithmetic that implies in-bounds accesses "
         "(C19_index_safety: every `[a..b]`, checked subtraction and set_len of buffer/src is within bounds in "
         "every reachable state, every byte written lies inside the view's window inside the allocation), "
-        "they do not exhibit the machine-level accesses. No address-sanitizer run over the inputs of the other "
-        "checks is part of this check",
+        "they do not exhibit the machine-level accesses. The thorough tier additionally runs a slice (about 400) of "
+        "the same generated programs on the real crate under Miri (Tree Borrows; supporting evidence, not a proof; "
+        "it reports e.g. the seeded change C19-arrayvec-spare-ignores-existing-length as Undefined Behavior: dangling "
+        "reference beyond the allocation); no address-sanitizer run over the inputs of the OTHER checks is part of this check",
         "use-after-free / lifetime soundness (the slice returned by initialized() outliving the view) rests on "
         "rustc's borrow checking of the crate's signatures; the harness additionally checks that every returned "
         "slice still holds the same bytes after all views are released",
